@@ -166,6 +166,30 @@ def run(pid, tier, seed):
                         meta.append(("corr.C13.updateReturn", case, gotr))
                     if len(cli_jobs) < (6 if quick else 200):
                         cli_jobs.append((name, path, fm, trace, traced, combo))
+                # a history: the same generator once returning a value and once running off its end (NoneType return); the
+                # traced return is Generator[Y, None, Optional[R]] (both observed returns), for an unannotated return in
+                # every mode and for an annotated one under `ignore`
+                R, Y = chk.rng.choice(traced_types[:3]), chk.rng.choice(traced_types[:3])
+                hist = [CallTrace(func, {}, R[0], Y[0]), CallTrace(func, {}, type(None), Y[0])]
+                chk.rng.shuffle(hist)
+                rsrc = sig.return_annotation
+                rann = rsrc is not inspect.Signature.empty
+                for sname, sval in strategies:
+                    chk.evaluations += 1
+                    case = {"module": name, "function": fm["qual"], "strategy": sname, "history": "yield+return, yield+None return"}
+                    try:
+                        defn = get_updated_definition(func, hist, 0, None, sval)
+                    except Exception as e:
+                        chk.fail("error", dict(case, error=repr(e)))
+                        continue
+                    gotr = classify(defn.signature.return_annotation, inspect.Signature.empty, rsrc, tbl)
+                    if rann and sname != "ignore":
+                        exp = ("src", "0") if sname == "replicate" else "none"
+                    else:
+                        exp = ("ty", ("generator", tyconv.canon(Y[1]), ("cls", "9"), tyconv.canon(("union", R[1], ("cls", "9")))))
+                    if gotr != exp:
+                        chk.fail("return-history-" + sname, dict(case, annotated=rann, got=sexp.dumps(gotr), expected=sexp.dumps(exp)))
+                    chk.nontriv("ret-history|%s|%s" % (sname, rann))
         for g, (rel, case, got) in zip(drv.ask_many(reqs), meta):
             gm = g if isinstance(g, str) else ((g[0], g[1]) if g[0] == "src" else ("ty", tyconv.canon(g[1])))
             chk.rel(rel, gm == got, dict(case, impl=sexp.dumps(got), model=sexp.dumps(gm)))
